@@ -31,10 +31,10 @@ ASSUMPTIONS = [
     "values are drawn from string/varint/uint32/boolean/stringlist so that value identity (C01/C14) is not what is being decided",
     "GC-driven finalisation of writers is kept out of runs (gc disabled during a run)",
 ]
-EXPECTED_PROBES = ["nested-descriptor-emitted", "same-name-redefinition", "identifier-coincidence", "reader-between-writes", "json-nested", "grouped-members", "equal-descriptor-twice", "same-object-to-two-writers", "refused-write-then-continue"]
+EXPECTED_PROBES = ["nested-descriptor-emitted", "same-name-redefinition", "identifier-coincidence", "reader-between-writes", "json-nested", "grouped-members", "equal-descriptor-twice", "same-object-to-two-writers", "refused-write-then-continue", "io-refused-write-then-continue", "field-less-type"]
 
 VALUE_TYPES = ["string", "varint", "boolean", "uint32"]
-KINDS = ["bin-raw", "bin-path", "bin-gz", "json"]
+KINDS = ["bin-raw", "bin-path", "bin-gz", "json", "json-faulty"]
 
 
 def budget(tier):
@@ -78,6 +78,9 @@ def rich_pool(rng):
     pool["M0"] = ["g/m", [["string", "a"]]]
     pool["M1"] = ["g/m", [["string", "b"], ["varint", "c"]]]
     pool["M2"] = ["g/other", [["uint32", "d"]]]
+    # legal field-less types, one of them under the name of a type that has fields
+    pool["Z0"] = ["z/marker", []]
+    pool["Z1"] = ["t/a", []]
     for i in range(rng.choice([0, 1, 2])):
         pool["R%d" % i] = [rng.choice(["t/a", "r/x", "g/m", "n/child"]), gen.gen_fields(rng, VALUE_TYPES, 1, 3)]
     return pool
@@ -89,7 +92,7 @@ def gen_vals(rng, pool, key):
     used = set()
     for typ, _ in fields:
         if typ == "record":
-            ck = rng.choice(["C0", "C1", "C2", "A0", "A1", "B0", "B1", "X0", "X1"])
+            ck = rng.choice(["C0", "C1", "C2", "A0", "A1", "B0", "B1", "X0", "X1", "Z0"])
             ident = (pool[ck][0], gen.desc_hash(pool[ck][0], pool[ck][1]))
             if ident in used:  # two coinciding descriptors inside one record cannot be represented
                 ck = "C2"
@@ -164,10 +167,13 @@ def generate(rng, tier, index):
     pool = rich_pool(rng)
     n_w = rng.choice([1, 2, 2, 3, 4])
     actors = {}
+    fail_calls = {}
     for i in range(n_w):
         actors["w%d" % i] = rng.choice(KINDS)
+        if actors["w%d" % i] == "json-faulty":
+            fail_calls["w%d" % i] = sorted(set(rng.randrange(0, 12) for _ in range(rng.choice([1, 1, 2]))))
     keys = sorted(pool)
-    flat = [k for k in keys if k[0] in "ABXER"]
+    flat = [k for k in keys if k[0] in "ABXERZ"]
     holders = [k for k in keys if k[0] == "H"]
     focus = rng.choice(["collide", "nested", "grouped", "mixed", "mixed"])
     n_ops = rng.choice([2, 3, 4, 6, 9, 14, 25, 40]) if tier != "quick" else rng.choice([2, 3, 4, 5, 7, 10, 16])
@@ -190,7 +196,7 @@ def generate(rng, tier, index):
                 members = []
                 used = set()
                 for _ in range(rng.choice([1, 2, 2, 3])):
-                    mk = rng.choice(["M0", "M1", "M2", "A0", "A1", "B0", "B1", "X0", "X1"])
+                    mk = rng.choice(["M0", "M1", "M2", "A0", "A1", "B0", "B1", "X0", "X1", "Z0"])
                     ident = (pool[mk][0], gen.desc_hash(pool[mk][0], pool[mk][1]))
                     if ident in used:
                         continue
@@ -213,7 +219,7 @@ def generate(rng, tier, index):
                 open_actors.remove(a)
     for a in sorted(actors):
         ops.append({"op": "close", "actor": a})
-    return {"actors": actors, "pool": pool, "ops": ops}
+    return {"actors": actors, "pool": pool, "ops": ops, "fail_calls": fail_calls}
 
 
 # -- expectations computed from the plan (harness side, no library) -------------------------------
@@ -402,8 +408,40 @@ def plain_as_flat(rec):
     return [d.name, [[t, n] for t, n in d.get_field_tuples()], sorted([k, obs_value(getattr(rec, k))] for k in rec.__slots__)]
 
 
+class FaultyText(io.TextIOBase):
+    """A text sink that refuses chosen write calls (nothing of the call is stored)."""
+
+    def __init__(self, world, fail_calls, label):
+        super().__init__()
+        self._world = world
+        self.fail = set(fail_calls)
+        self.n = 0
+        self.chunks = []
+        self.refused = []  # payloads of refused calls
+        self.label = label
+
+    def writable(self):
+        return True
+
+    def write(self, s):
+        i = self.n
+        self.n += 1
+        if i in self.fail:
+            import errno
+
+            self.refused.append(s)
+            self._world.fault("fp_write_error")
+            self._world.log(self.label, "fp.write#%d" % i, "-> OSError(ENOSPC)")
+            raise OSError(errno.ENOSPC, "No space left on device (injected)")
+        self.chunks.append(s)
+        return len(s)
+
+    def getvalue(self):
+        return "".join(self.chunks)
+
+
 class Actor:
-    def __init__(self, w, aid, kind):
+    def __init__(self, w, aid, kind, fail_calls=()):
         from flow.record import RecordStreamWriter, RecordWriter
 
         self.w = w
@@ -413,6 +451,8 @@ class Actor:
         self.written_obs = []
         self.closed = False
         self.raw = None
+        self.faulty = False
+        self.sink = None
         if kind == "bin-raw":
             self.raw = w.new_raw("wb", label=aid + ".raw")
             self.writer = RecordStreamWriter(self.raw)
@@ -426,6 +466,14 @@ class Actor:
         elif kind == "json":
             self.path = "/simfs/%s.jsonl" % aid
             self.writer = RecordWriter("jsonfile://" + self.path)
+        elif kind == "json-faulty":
+            from flow.record.adapter.jsonfile import JsonfileWriter
+
+            self.path = "/simfs/%s.jsonl" % aid
+            self.sink = FaultyText(w, fail_calls, aid)
+            self.writer = JsonfileWriter(self.sink)
+            self.kind = "json"
+            self.faulty = True
         else:
             raise ValueError(kind)
         w.keep.append(self.writer)
@@ -433,7 +481,24 @@ class Actor:
     def device(self):
         if self.raw is not None:
             return bytes(self.raw._inode.data)
+        if self.sink is not None:
+            data = self.sink.getvalue().encode("utf-8", "surrogateescape")
+            self.w.fs.put(self.path, data)  # so that the path based reader can be used on it
+            return data
         return self.w.fs.get(self.path)
+
+    def damaged(self):
+        """A refused call that carried a descriptor line: later records of that type legitimately cannot be
+        decoded (the stream lost a definition to the fault) - C04's territory, not judged here."""
+        if self.sink is None:
+            return False
+        for payload in self.sink.refused:
+            lines = [ln for ln in payload.splitlines() if ln.strip()]
+            # excused only when the refused call carried nothing but definitions; a call that bundles a record
+            # with its definitions and then forgets them is the writer's doing
+            if lines and all('"_type": "recorddescriptor"' in ln for ln in lines):
+                return True
+        return False
 
     def plain(self):
         """-> (bytes of the uncompressed stream so far, complete?)"""
@@ -463,7 +528,7 @@ def execute(plan, keep_log=False):
         pj = plan["pool"]
         actors = {}
         for aid in sorted(plan["actors"]):
-            actors[aid] = Actor(w, aid, plan["actors"][aid])
+            actors[aid] = Actor(w, aid, plan["actors"][aid], (plan.get("fail_calls") or {}).get(aid, ()))
         w.log("plan", "actors", " ".join("%s=%s" % (a, plan["actors"][a]) for a in sorted(actors)), "ops=%d" % len(plan["ops"]))
         last_writer = None
         for oi, op in enumerate(plan["ops"]):
@@ -481,6 +546,8 @@ def execute(plan, keep_log=False):
                     rec = pool.make(op["desc"], op["values"])
                     if op["desc"] == "E0":
                         w.probe("equal-descriptor-twice")
+                    if op["desc"] in ("Z0", "Z1"):
+                        w.probe("field-less-type")
                 exp = expected_of(pj, op)
                 if exp["kind"] == "GROUPED":
                     fd = rec._desc
@@ -499,7 +566,10 @@ def execute(plan, keep_log=False):
                         w.log(a.id, "write", op.get("desc") or ("group:" + op["group"]), "-> ok")
                     except Exception as e:  # noqa: BLE001
                         w.log(a.id, "write", op.get("desc") or ("group:" + op["group"]), "->", type(e).__name__)
-                        add([_viol("C03.write-raises", "write of a valid record raised %s: %s" % (type(e).__name__, e))], "step %d %s" % (oi, a.id))
+                        if a.faulty and isinstance(e, OSError):
+                            w.probe("io-refused-write-then-continue")  # refused by the injected fault: not in the model
+                        else:
+                            add([_viol("C03.write-raises", "write of a valid record raised %s: %s" % (type(e).__name__, e))], "step %d %s" % (oi, a.id))
                 if exp["nested"]:
                     w.probe("nested-descriptor-emitted")
                 last_writer = a.id
@@ -535,6 +605,8 @@ def execute(plan, keep_log=False):
                     w.log(a.id, "close")
             elif kind == "read":
                 a = actors[op["src"]]
+                if a.damaged():
+                    continue
                 if any(not x.closed for x in actors.values() if x is not a) or not a.closed:
                     w.probe("reader-between-writes")
                 # an interleaved reader: reads what is on disk now, creating descriptors on the way
@@ -577,6 +649,9 @@ def execute(plan, keep_log=False):
                 except Exception:  # noqa: BLE001
                     pass
                 a.closed = True
+            if a.damaged():
+                w.probe("descriptor-line-lost-to-fault")
+                continue
             data, complete = a.plain()
             sfx = "@json" if a.kind == "json" else ""
             if a.kind == "json":
